@@ -64,6 +64,10 @@ func dataDiff(got, want []tarFile, prefixOK bool) string {
 	return ""
 }
 
+// c14TypedDevice: fault-free, non-concurrent loads may hand the image in as a
+// standard concrete ReaderAt type instead of the simulated disk.
+var c14TypedDevice bool
+
 type loadOutcome struct {
 	d     *deb.Deb
 	err   error
@@ -80,7 +84,11 @@ func loadBody(r *rt.Run, via string, img []byte, disk *simdisk.Disk, readData bo
 		var closer func() error
 		switch via {
 		case "Load":
-			o.d, o.err = deb.Load(disk, "/pkgs/x.deb")
+			var dev io.ReaderAt = disk
+			if c14TypedDevice {
+				dev = typedReaderAt(r, img, disk)
+			}
+			o.d, o.err = deb.Load(dev, "/pkgs/x.deb")
 		case "LoadFile":
 			fs := simos.New(r)
 			fs.PutQuiet("/pkgs/x.deb", img)
@@ -240,6 +248,8 @@ func runC14(r *rt.Run, tier string) {
 		}
 		r.Sched()
 	}
+	c14TypedDevice = mode == 0 && !concurrent && !lz
+	defer func() { c14TypedDevice = false }()
 	var firstErr error
 	for li := 0; li < nloads; li++ {
 		disk := newDisk()
